@@ -233,9 +233,9 @@ func init() {
 		}
 		return &vf.Check{
 			ID: "C18", Level: "model_checking",
-			Rule: "every program of the bounded spaces is run on the real EVAL without a stepper and under every scripted stepper command sequence (flags reset and read through a test-only export); result, error (thrown payload and the error's full text, position included) and ordered effect trace must be identical; for every (t! sym) form handed to the callback the symbol is resolved in the scope handed along and must equal the effect that follows; the visited (flag state x command) pairs of the stepping machine are reported in outcomes; non-trivial = program with effects",
+			Rule:        "every program of the bounded spaces is run on the real EVAL without a stepper and under every scripted stepper command sequence (flags reset and read through a test-only export); result, error (thrown payload and the error's full text, position included) and ordered effect trace must be identical; for every (t! sym) form handed to the callback the symbol is resolved in the scope handed along and must equal the effect that follows; the visited (flag state x command) pairs of the stepping machine are reported in outcomes; non-trivial = program with effects",
 			Assumptions: []string{"text printed by the 'next' command is not a program effect", "programs terminate within the host stack (bounded recursion)"},
-			Families: []*vf.Family{fam},
+			Families:    []*vf.Family{fam},
 		}
 	})
 }
